@@ -121,7 +121,7 @@ R.canaries.append(("phase.py:canary#list-always-restarts-with-header", canary))
 from contracts import graph_py as _G  # noqa: E402
 
 R.import_proved(_G.R, "contracts.graph_py", ["ComponentFinder.__init__", "ComponentFinder.merge", "ComponentFinder.find"])
-R.declare_class("Read", {"variants": LIST(REF("Variant")), "sample_id": INT})
+R.declare_class("Read", {"variants": LIST(REF("Variant")), "sample_id": INT, "name": INT, "source_id": INT})
 R.iter_fields["Read"] = "variants"
 
 # CLS: an ARBITRARY labelling of positions (uninterpreted): the contract holds for every labelling whose classes are closed under the
@@ -203,3 +203,82 @@ def canary_fc():
 
 
 R.canaries.append(("phase.py:canary#find_components-one-set-for-all", canary_fc))
+
+
+# ---------------------------------------------------------------------------------------------------------------------------------
+# ReadList.write (C20): one line per read handed in, in order, attributed to the phase set of its FIRST variant (component + 1).
+# The open file is an object with the sequence of lines written so far; strings (read names, sample names) are interned ids.
+R.declare_class("OpenFile", {"lines": LIST(INT)})
+R.declare_class("ReadList", {"_path": INT, "_file": REF("OpenFile")})
+R.declare_class("SampleIds", {"inv": DICT(INT, INT)})
+LINE8 = z3.Function("LINE8", *([z3.IntSort()] * 9))
+
+
+class OpenFileModel:
+    @staticmethod
+    def print(eng, st, obj, args, kwargs):
+        zs = [to_z3(a) for a in args]
+        if len(zs) != 8:
+            raise Unsupported("row with %d fields" % len(zs))
+        lines = eng.load_field(st, obj, "lines")
+        eng.store_field(st, obj, "lines", eng.list_append(lines, LINE8(*zs)))
+        return NONE
+
+
+class ReadAsSequence:
+    @staticmethod
+    def getitem(eng, st, obj, key):
+        return eng.getitem(eng.load_field(st, obj, "variants"), key, st)
+
+    @staticmethod
+    def len(eng, st, obj):
+        return eng.load_field(st, obj, "variants").len
+
+
+class SampleIdsModel:
+    @staticmethod
+    def method(eng, st, obj, name, args, kwargs):
+        if name == "inverse_mapping" and not args:
+            return eng.load_field(st, obj, "inv")
+        return NotImplemented
+
+
+R.object_models.update({"OpenFile": OpenFileModel, "Read": ReadAsSequence, "SampleIds": SampleIdsModel})
+
+
+@R.spec
+def READ_ROW(eng, st, read, haplotype, sample_components, ids):
+    """the line ReadList.write owes for this read"""
+    f = lambda o, n: eng.load_field_raw(st, o, n)
+    vs = f(read, "variants")
+    first, last = VRef("Variant", vs.arr[0]), VRef("Variant", vs.arr[vs.len - 1])
+    sample = f(ids, "inv").map[to_z3(f(read, "sample_id"))]
+    comps = sample_components.val.z3sort()
+    comp_of_first = comps.map(sample_components.map[sample])[to_z3(f(first, "position"))]
+    return LINE8(to_z3(f(read, "name")), to_z3(f(read, "source_id")), sample, comp_of_first + 1, to_z3(haplotype), vs.len,
+                 to_z3(f(first, "position")) + 1, to_z3(f(last, "position")) + 1)
+
+
+_RL_VALID = ("forall(k, implies(0 <= k and k < len(readset), readset[k] is not None and len(readset[k].variants) >= 1 and "
+             "readset[k].variants[0] is not None and readset[k].variants[len(readset[k].variants) - 1] is not None and "
+             "readset[k].sample_id in numeric_sample_ids.inv and numeric_sample_ids.inv[readset[k].sample_id] in sample_components and "
+             "readset[k].variants[0].position in sample_components[numeric_sample_ids.inv[readset[k].sample_id]]))")
+_RL_ROWS = "forall(k, implies(0 <= k and k < %s, self._file.lines[old(len(self._file.lines)) + k] == READ_ROW(readset[k], bipartition[k], sample_components, numeric_sample_ids)))"
+R.contract(
+    "ReadList.write",
+    params={"self": REF("ReadList"), "readset": LIST(REF("Read")), "bipartition": LIST(INT), "sample_components": DICT(INT, DICT(INT, INT)), "numeric_sample_ids": REF("SampleIds")},
+    requires=[("valid", _RL_VALID)],
+    raises={"ValueError": "self._file is None"},
+    ensures=[
+        ("earlier-lines-kept", "forall(k, implies(0 <= k and k < old(len(self._file.lines)), self._file.lines[k] == old(self._file.lines[k])))"),
+        ("one-line-per-read", "len(self._file.lines) == old(len(self._file.lines)) + len(readset)"),
+        ("each-read-attributed-to-the-phase-set-of-its-first-variant", _RL_ROWS % "len(readset)"),
+    ],
+    modifies=["OpenFile.lines"],
+    loops={0: dict(index="ri", modifies=["OpenFile.lines"], inv=[
+        ("file-open", "self._file is not None"),
+        ("earlier", "forall(k, implies(0 <= k and k < old(len(self._file.lines)), self._file.lines[k] == old(self._file.lines[k])))"),
+        ("count", "len(self._file.lines) == old(len(self._file.lines)) + ri"),
+        ("rows", _RL_ROWS % "ri")])},
+    extra={"assume_asserts": [0], "nullable": {}},
+    props=["C20"])
